@@ -392,7 +392,16 @@ func init() {
 						max = 3
 					}
 					k := 1
-					if max > 1 {
+					if max > 1 && e.sh.cfg.Concrete != nil {
+						// replaying one input vector (translator validation):
+						// the chunking is not part of the vector; natively the
+						// kernel hands over everything there is
+						k = len(ino.content)
+						if len(buf) < k {
+							k = len(buf)
+						}
+					}
+					if max > 1 && e.sh.cfg.Concrete == nil {
 						k = 1 + e.choose(max)
 						if k == max {
 							// the largest choice stands for "everything there is"
